@@ -2,6 +2,7 @@ package checks
 
 import (
 	"fmt"
+	roprometheus "github.com/samber/ro/ee/plugins/prometheus"
 	"sync"
 	"testing"
 
@@ -107,7 +108,7 @@ func TestC13_Subjects(t *testing.T) {
 }
 
 func TestC13_ShareAndConnectable(t *testing.T) {
-	reps := 250
+	reps := 600
 	if rt.Thorough() {
 		reps = 3000
 	}
@@ -201,7 +202,9 @@ func TestC13_SubscriptionsAndSafeObservables(t *testing.T) {
 		close(start)
 		wg.Wait()
 	}
-	rt.Case("race-subscriber", true, "race:subscriber", func() any { return map[string]any{"scenario": "Add | Next | Next | Unsubscribe | terminal | Wait on one subscriber", "reps": reps} })
+	rt.Case("race-subscriber", true, "race:subscriber", func() any {
+		return map[string]any{"scenario": "Add | Next | Next | Unsubscribe | terminal | Wait on one subscriber", "reps": reps}
+	})
 	rt.Case("race-subscriber-2", true, "race:subscriber", func() any { return fmt.Sprintf("%d repetitions", reps) })
 }
 
@@ -225,5 +228,51 @@ func TestC13_InternalGoroutines(t *testing.T) {
 				rt.Case(caseKey("race-internal", op, p.d, p.gap, p.dwell, p.cancel, end), true, "race:internal:"+op, func() any { return c })
 			}
 		}
+	}
+}
+
+// Instrumented pipes (Prometheus plugin, licence on) whose operators hand
+// notifications over to another goroutine: the stages in front of the hand-off run
+// on the producer's goroutine, those behind it on the consumer's, and several
+// subscriptions run at once.
+func TestC13_InstrumentedPipes(t *testing.T) {
+	reps := 20
+	if rt.Thorough() {
+		reps = 300
+	}
+	roprometheus.VerifSetLicenseBypass(true)
+	defer roprometheus.VerifSetLicenseBypass(false)
+	ident := func() opII { return ro.Map(func(x int) int { return x }) }
+	shapes := map[string]func() []opII{
+		"Map|ObserveOn|Map": func() []opII { return []opII{ident(), ro.ObserveOn[int](2), ident()} },
+		"Map|SubscribeOn|Filter|Map": func() []opII {
+			return []opII{ident(), ro.SubscribeOn[int](2), ro.Filter(func(int) bool { return true }), ident()}
+		},
+		"ObserveOn|Scan": func() []opII { return []opII{ro.ObserveOn[int](4), ro.Scan(func(a, x int) int { return a + x }, 0)} },
+		"Map|Map":        func() []opII { return []opII{ident(), ident()} },
+	}
+	idx := 0
+	for name, mk := range shapes {
+		idx++
+		if !rt.Mine(idx) {
+			continue
+		}
+		for rep := 0; rep < reps; rep++ {
+			obs, _ := promPipeN(roprometheus.CollectorConfig{Namespace: "verif"}, ro.Just(seqInts(40)...), mk())
+			var wg sync.WaitGroup
+			for s := 0; s < 3; s++ {
+				wg.Add(1)
+				go func() {
+					defer wg.Done()
+					defer func() { recover() }()
+					done := make(chan struct{})
+					obs.Subscribe(ro.NewObserver(func(int) {}, func(error) { close(done) }, func() { close(done) }))
+					<-done
+				}()
+			}
+			wg.Wait()
+		}
+		n := name
+		rt.Case(caseKey("race-prom", n), true, "race:prometheus", func() any { return map[string]any{"pipe": n, "reps": reps, "subscriptions": 3} })
 	}
 }
